@@ -108,6 +108,12 @@ impl<'a> StateMachine<'a> {
     //@rewrite <<<self.config .minus_style .paint(verif_take12(minus_commit))>>> => <<<verif_paint(self.config.minus_style, verif_take12(minus_commit))>>>
     //@rewrite <<<self.config .plus_style .paint(verif_take12(commit))>>> => <<<verif_paint(self.config.plus_style, verif_take12(commit))>>>
 
+    //@ fn src/handlers/submodule.rs StateMachine::handle_pending_submodule_short_commit spec=misc.pending_submodule optional=1
+    //@after <<<self.painter.emit()?;>>>| let ghost h1 = self.painter.writer.hist(); assert(only_text_after(h1, h1));
+    //@afterstmt <<<verif_write_display(>>>| proof { lemma_hist_lines_only_text(h1, self.painter.writer.hist()); }
+    //@rewrite <<<.paint(minus_commit.chars().take(12).collect::<String>())>>> => <<<.paint(verif_take12(minus_commit))>>>
+    //@rewrite <<<self.config .minus_style .paint(verif_take12(minus_commit))>>> => <<<verif_paint(self.config.minus_style, verif_take12(minus_commit))>>>
+
     //@ fn src/handlers/commit_meta.rs StateMachine::test_commit_meta_header_line
     //@| ensures r == regex_is_match(&self.config.commit_regex, self.line@),
     //@ fn src/handlers/commit_meta.rs StateMachine::_handle_commit_meta_header_line spec=misc._handle_commit_meta
